@@ -212,7 +212,7 @@ ContainsFailure::ContainsFailure(UtestShell* test, const char* fileName, size_t 
 {
     message_ = createUserText(text);
 
-    message_ += StringFromFormat("actual <%s>\n\tdid not contain  <%s>", actual.asCharString(), expected.asCharString());
+    message_ += StringFromFormat("actual <%s>\n\tdid not contain  <%s>", actual.printable().asCharString(), expected.printable().asCharString());
 }
 
 CheckFailure::CheckFailure(UtestShell* test, const char* fileName, size_t lineNumber, const SimpleString& checkString, const SimpleString& conditionString, const SimpleString& text)
